@@ -308,3 +308,53 @@ func solveAll(c *Ctx, obls []*Obligation, facts map[*Obligation][]*Term, dir str
 	}
 	wg.Wait()
 }
+
+// checkConsistency runs the call-site consistency probes: a probe whose path condition is
+// unsatisfiable after assuming a callee's postconditions, but satisfiable before, reveals a
+// contradictory contract. It returns the names of such probes.
+func checkConsistency(c *Ctx, res []*procResult, dir string) []string {
+	var post []*Obligation
+	facts := map[*Obligation][]*Term{}
+	for _, r := range res {
+		if r.err != nil {
+			continue
+		}
+		for _, ob := range r.callProbes {
+			post = append(post, ob)
+			facts[ob] = r.proc.entryFacts
+		}
+	}
+	sub := filepath.Join(dir, "cons")
+	os.MkdirAll(sub, 0o755)
+	var wg sync.WaitGroup
+	sem := make(chan struct{}, 16)
+	for i, ob := range post {
+		wg.Add(1)
+		sem <- struct{}{}
+		go func(i int, ob *Obligation) {
+			defer wg.Done()
+			defer func() { <-sem }()
+			q := c.Query(ob, facts[ob])
+			f := filepath.Join(sub, fmt.Sprintf("p%05d.smt2", i))
+			os.WriteFile(f, []byte(q), 0o644)
+			res, _, _ := runSolver(context.Background(), solvers[0], f, 500)
+			ob.Status = res
+		}(i, ob)
+	}
+	wg.Wait()
+	var bad []string
+	for i, ob := range post {
+		if ob.Status != "unsat" {
+			continue
+		}
+		pre := &Obligation{Name: ob.Name, PC: ob.PrePC, Goal: TFalse, Decls: ob.Decls, ExpectSat: true}
+		q := c.Query(pre, facts[ob])
+		f := filepath.Join(sub, fmt.Sprintf("pre%05d.smt2", i))
+		os.WriteFile(f, []byte(q), 0o644)
+		res, _, _ := runSolver(context.Background(), solvers[0], f, 1500)
+		if res != "unsat" {
+			bad = append(bad, ob.Name+" at "+ob.Where)
+		}
+	}
+	return bad
+}
